@@ -35,6 +35,8 @@ pub trait Controller: Send + Sync + 'static {
   }
   /// An adopted thread is about to end.
   fn retire(&self) {}
+  /// Library code is about to spawn a thread that will call `adopt`.
+  fn expect_adoption(&self) {}
 }
 
 thread_local! {
@@ -158,6 +160,17 @@ impl Drop for Adopted {
     if let Some(c) = self.0.take() {
       leave();
       c.retire();
+    }
+  }
+}
+
+/// Announces that the calling code is about to spawn a thread that will `adopt()`.
+pub fn expect_adoption() {
+  if let Some(c) = current() {
+    c.expect_adoption();
+  } else if let Ok(g) = GLOBAL.read() {
+    if let Some(c) = g.as_ref() {
+      c.expect_adoption();
     }
   }
 }
